@@ -197,6 +197,75 @@ def check_wheel(acc, alpha_deg, beta_deg, z, wheel_is_master, Tsign, m, b, d_wor
         acc.violation(f'C09/bending/wheel/{side}', 'sigma_b = Ft / (p_n b_eff Y_alpha)', case, {'got': got, 'ref': sb})
 
 
+# -- re-declared matings: the same gear computes against a sequence of mates ---------------------------------
+MATES = [  # (teeth, module, face width, modulus) of the mate; the gear under test keeps full data
+    (31, MODS[0], WIDTHS[1], MODULI[1]),
+    (57, MODS[0], WIDTHS[0], MODULI[2]),
+    (24, MODS[0], WIDTHS[0], None),          # lacks elastic modulus -> contact stress must raise
+    (40, None, None, MODULI[0]),             # lacks module -> contact stress must raise
+]
+
+
+def check_remating(acc, kind, z, seq):
+    """seq: list of (mate index, role of the gear under test).  After every declaration force and stresses are
+    recomputed and must follow the formulas for the CURRENT mate and role."""
+    beta = None if kind == 'S' else [20.0, 'deg']
+    case = {'kind': 'remate', 'gk': kind, 'z': z, 'seq': [list(x) for x in seq]}
+    m, b, E = MODS[0], WIDTHS[0], MODULI[0]
+    g = make_gear(kind, z, m, b, E, beta, 'g')
+    mates = [make_gear(kind, zm, mm, bm, Em, beta, f'mate{i}') for i, (zm, mm, bm, Em) in enumerate(MATES)]
+    msi, bsi, Esi = mS(m, 'Length'), mS(b, 'Length'), mS(E, 'Stress')
+    d = z * msi
+    if kind == 'S':
+        Y, alpha, bet = ref.lewis(z), math.radians(20.0), 0.0
+    else:
+        bet = si.si(beta[0], 'Angle', beta[1])
+        alpha, _, zv = ref.helical_geometry(z, bet)
+        Y = ref.lewis(zv)
+    for step, (mi, role) in enumerate(seq):
+        o = mates[mi]
+        if role == 'master':
+            add_gear_mating(master=g, slave=o, efficiency=0.9)
+        else:
+            add_gear_mating(master=o, slave=g, efficiency=0.8)
+        acc.transitions += 1
+        T = 0.21 * (step + 1)
+        g.load_torque = Torque(T, 'Nm')
+        g.driving_torque = Torque(-3.0 * T, 'Nm')
+        Tref = T if role == 'master' else -3.0 * T
+        Ft = ref.tangential_force(Tref, d)
+        g.compute_tangential_force()
+        g.compute_bending_stress()
+        if not si.close(si.q_si(g.tangential_force), Ft, 1e-9):
+            acc.violation(f'C09/remate/force/{kind}', 'force follows the current role after a re-declared mating', case,
+                          {'step': step, 'got': si.q_si(g.tangential_force), 'ref': Ft})
+            return
+        if not si.close(si.q_si(g.bending_stress), ref.bending_spur(Ft, msi, bsi, Y), 1e-9):
+            acc.violation(f'C09/remate/bending/{kind}', 'bending stress follows the current force', case, {'step': step})
+            return
+        zm, mm, bm, Em = MATES[mi]
+        try:
+            g.compute_contact_stress()
+            err = None
+        except ValueError:
+            err = 'ValueError'
+        if mm is None or Em is None:
+            if err != 'ValueError':
+                acc.violation(f'C09/remate/contact/no-error/{kind}', 'contact stress whose CURRENT mate lacks module or elastic modulus raises ValueError', case,
+                              {'step': step, 'value': si.q_si(g.contact_stress)})
+                return
+            continue
+        if err:
+            acc.violation(f'C09/remate/contact/exception/{kind}', 'contact stress computable with the current mate', case, {'step': step})
+            return
+        sc = ref.contact_stress(Ft, bsi, d, zm * mS(mm, 'Length'), Esi, mS(Em, 'Stress'), alpha, bet)
+        if not si.close(si.q_si(g.contact_stress), sc, 1e-9):
+            acc.violation(f'C09/remate/contact/{kind}', 'Hertz expression in the diameters and moduli of the CURRENT pair', case,
+                          {'step': step, 'got': si.q_si(g.contact_stress), 'ref': sc, 'mate': mi, 'role': role})
+            return
+    acc.outcomes[('remate', kind, len(seq))] += 1
+
+
 def shards(tier):
     out = []
     for lo in range(10, 521, 32):
@@ -207,6 +276,8 @@ def shards(tier):
     out.append({'mode': 'params', 'gk': 'S'})
     out.append({'mode': 'params', 'gk': 'H'})
     out.append({'mode': 'wheel'})
+    out.append({'mode': 'remate', 'gk': 'S'})
+    out.append({'mode': 'remate', 'gk': 'H'})
     return out
 
 
@@ -252,6 +323,15 @@ def run_shard(shard, tier):
                                 check_pair(acc, kind, z, 44, role, -1, m, b, E, mm, WIDTHS[2], Em, beta=beta, tag='params')
                                 acc.nstates += 1
         acc.sample({'kind': kind, 'mode': 'modules x face widths x moduli in mixed units'})
+    elif mode == 'remate':
+        steps = [(mi, role) for mi in range(len(MATES)) for role in ('master', 'slave')]
+        depth = 2 if tier == 'quick' else 3
+        for z in (12, 37):
+            for dd in range(1, depth + 1):
+                for seq in itertools.product(steps, repeat=dd):
+                    check_remating(acc, shard['gk'], z, seq)
+                    acc.nstates += 1
+        acc.sample({'kind': shard['gk'], 'mode': 'all sequences of re-declared matings', 'depth': depth, 'mates': len(MATES), 'roles': 2})
     else:
         for a in ALPHAS:
             for beta in (5.0, 10.0, ref.WORM_TABLE[a][0]):
@@ -275,6 +355,8 @@ def replay(case):
     if case.get('kind') == 'pair':
         check_pair(acc, case['gk'], case['z'], case['zm'], case['role'], case['Tsign'], case['m'], case['b'], case['E'],
                    case['mm'], case['bm'], case['Em'], beta=case['beta'])
+    elif case.get('kind') == 'remate':
+        check_remating(acc, case['gk'], case['z'], [tuple(x) for x in case['seq']])
     elif case.get('kind') == 'wheel':
         check_wheel(acc, case['alpha'], case['beta'], case['z'], case['wheel_is_master'], case['Tsign'], case['m'], case['b'], case['d'])
     else:
